@@ -1,7 +1,7 @@
 (* The request/response interface the extracted driver serves. *)
 From Coq Require Import ZArith NArith List Bool.
 From Coq Require Import Strings.Byte.
-Require Import Bytes Value Expr Codec Float Stream Syntax Sizeof Parse Build Hex Containers Lazy Compiled Ksy.
+Require Import Bytes Value Expr Codec Float Stream Syntax Sizeof Parse Build Hex Containers Lazy Compiled Ksy PyExpr.
 Import ListNotations.
 
 Inductive request :=
@@ -17,7 +17,9 @@ Inductive request :=
 | RCBuild (c : con) (obj : val) (kw : list (name * val))
 | RKsyEmit (c : con)
 | RKsyInterp (sch : kschema) (kw : list (name * val)) (data : bytes)
-| RKsyLayout (c : con) (kw : list (name * val)) (data : bytes).
+| RKsyLayout (c : con) (kw : list (name * val)) (data : bytes)
+| RExprPrint (e : expr)
+| RExprRead (ts : list tok).
 
 Inductive response :=
 | ROkParse (v : val) (pos : Z)
@@ -29,6 +31,8 @@ Inductive response :=
 | ROkLazy (pos : Z) (o : list lout)
 | ROkKsy (s : option kschema)
 | ROkFields (f : list fieldrec)
+| ROkToks (t : option (list tok))
+| ROkExpr (e : option expr)
 | RErr (e : err) (p : option path).
 
 Definition run (r : request) : response :=
@@ -84,4 +88,6 @@ Definition run (r : request) : response :=
       | Ok recs => ROkFields recs
       | Err e p => RErr e p
       end
+  | RExprPrint e => ROkToks (pr e)
+  | RExprRead ts => ROkExpr (pyparse ts)
   end.
